@@ -16,6 +16,7 @@
 import PV.Model.ChanCloseLemmas
 import PV.Model.FlagOnce
 import PV.Generated.ChanLock
+import PV.Generated.C22
 namespace PV.Props.C22
 open PV.Chan
 
@@ -242,6 +243,14 @@ theorem decision_sites_locked : ∀ s ∈ decisionSites, s.effLocked = true := b
     what makes "released" in `peer_close_answered_and_released` mean "this channel, and only it". -/
 theorem unlink_uses_the_local_id :
     PV.Generated.ChanLock.unlinkArgs ≠ [] ∧ ∀ a ∈ PV.Generated.ChanLock.unlinkArgs, a = "self.chanid" := by
+  decide
+
+/-- **Every message for a registered channel reaches its handler**: in `Transport.run` the only condition between
+    `chan = self._channels.get(chanid)` and `self._channel_handler_table[ptype](chan, m)` is `chan is not None`
+    (AST of transport.py on this run) — in particular the peer's CLOSE reaches `_handle_close` of a channel we
+    closed first, which is the `peerClose` action that releases it (`peer_close_answered_and_released`). -/
+theorem dispatch_reaches_every_registered_channel :
+    PV.Generated.C22.dispatchGuard = "chan is not None" ∧ PV.Generated.C22.dispatchCallsHandler = true := by
   decide
 
 /-- hence, for any number of threads running any of those sites concurrently: at most one EOF (CLOSE) -/
